@@ -34,6 +34,11 @@ type c01Msg struct {
 	// AbortKind: "" = flush with a cancelled context; "queue-dead" = the package is QUEUED with a cancelled
 	// context (must fail and leave nothing behind); "reset" = queued normally, then Channel.Reset().
 	AbortKind string `json:"abort_kind,omitempty"`
+	// AbortFull > 0: the abandoned package is AbortFull packet bodies longer, so that many full packets of it are
+	// on the wire - under the message type AbortType, without an end-of-message flag - before it is abandoned.
+	// The message that follows must still be a message of its own type.
+	AbortFull int `json:"abort_full,omitempty"`
+	AbortType int `json:"abort_type,omitempty"`
 }
 
 type c01Plan struct {
@@ -142,6 +147,11 @@ func (c01) Gen(r *Rand, idx int, tier string) interface{} {
 		if r.Pct(15) {
 			m.Abort = 1 + r.Intn(body-1)
 			m.AbortKind = Pick(r, []string{"", "", "queue-dead", "reset", "bad-reset"})
+			if (m.AbortKind == "" || m.AbortKind == "reset") && r.Pct(40) {
+				m.AbortFull = 1 + r.Intn(2)
+				m.Abort += m.AbortFull * body
+				m.AbortType = 1 + r.Intn(23)
+			}
 		}
 		if len(m.Pkgs) == 1 && r.Pct(60) {
 			m.Split = "send"
@@ -196,7 +206,17 @@ func (c01) Shrink(plan interface{}) []interface{} {
 			q.Msgs[i].NextSize = 0
 			out = append(out, &q)
 		}
-		if m.Abort > 1 {
+		if m.AbortFull > 0 {
+			q := *p
+			q.Msgs = append([]c01Msg{}, p.Msgs...)
+			q.Msgs[i].Abort -= m.AbortFull * 504
+			if q.Msgs[i].Abort < 1 {
+				q.Msgs[i].Abort = 1
+			}
+			q.Msgs[i].AbortFull, q.Msgs[i].AbortType = 0, 0
+			out = append(out, &q)
+		}
+		if m.Abort > 1 && m.AbortFull == 0 {
 			q := *p
 			q.Msgs = append([]c01Msg{}, p.Msgs...)
 			q.Msgs[i].Abort = 1
@@ -346,6 +366,9 @@ func (c01) Run(plan interface{}, schedSeed uint64, replay []simrt.Choice, lenien
 			}
 			ch.CurrentHeaderType = tds.PacketHeaderType(m.HeaderType)
 			var err error
+			if m.AbortFull > 0 {
+				ch.CurrentHeaderType = tds.PacketHeaderType(m.AbortType)
+			}
 			if m.Abort > 0 {
 				dead, kill := simrt.WithCancel(context.Background())
 				kill()
@@ -493,6 +516,31 @@ func (c01) Run(plan interface{}, schedSeed uint64, replay []simrt.Choice, lenien
 		}
 		if len(pkts) == 0 {
 			v.Violate("nothing-sent", "nothing sent: "+sigB, "%s: no packet reached the transport", where)
+			break
+		}
+		// full packets of an abandoned message come first
+		for k := 0; k < m.AbortFull && v.Class == ""; k++ {
+			if len(pkts) == 0 {
+				v.Violate("abandoned", "abandoned message: packets missing", "%s: %d full packets of the abandoned package were due on the wire, %d arrived", where, m.AbortFull, k)
+				break
+			}
+			pk := pkts[0]
+			pkts = pkts[1:]
+			wantCh := uint16(0)
+			if p.Logical && !m.OnZero {
+				wantCh = chanID
+				if expectNr >= 0 && int(pk.H.PacketNr) != expectNr {
+					v.Violate("packet-number", "packet numbers not consecutive", "%s: packet %d of the abandoned message has number %d, expected %d", where, k, pk.H.PacketNr, expectNr)
+				}
+				expectNr = (int(pk.H.PacketNr) + 1) % 256
+			}
+			if int(pk.H.Length) != ps || int(pk.H.Type) != m.AbortType || pk.H.Status&peer.BufstatEOM != 0 || pk.H.Channel != wantCh || !bytes.Equal(pk.Body, bytes.Repeat([]byte{0x5a}, ps-8)) {
+				v.Violate("abandoned", "abandoned message: packet malformed", "%s: packet %d of the abandoned message (type %d) arrived as %s", where, k, m.AbortType, pk.H)
+			}
+			v.Probe("abandoned-after-full-packets")
+		}
+		if len(pkts) == 0 && v.Class == "" {
+			v.Violate("nothing-sent", "nothing sent: "+sigB, "%s: no packet of the message reached the transport", where)
 			break
 		}
 		var got []byte
